@@ -6,6 +6,10 @@ div B = 0 and curl H = 0 at every point off the dipole position, resp. off the s
 the interface conditions of the Sphere solution (normal B and tangential H continuous
 across |x| = R), which together with B_in − μ₀H_in = J (C02) are what make the flux and
 circulation laws hold for surfaces/loops that cut the boundary.
+Straight current segment (`current_polyline_Hfield`, one row): div H = 0 at every observer off the
+carrier line, for every placement of the segment (`segment_div_free`; canonical placement on the
+z-axis with the explicit azimuthal closed form: `segmentH_canonical_eq`, `segment_div_free_canonical`).
+Curl-freeness is NOT claimed for a segment: the field of an open finite segment is not curl-free.
 /- FULL: zero flux of B through every closed surface and circulation of H = linked current for
    every loop, all classes.  Needs C01 for every class plus Gauss/Stokes for general surfaces;
    not shown by theorem.  The flux/circulation quadrature oracle checks boxes and loops of sizes
@@ -14,6 +18,7 @@ circulation laws hold for surfaces/loops that cut the boundary.
 import MagpyVerif.Lemmas.KernReal
 import MagpyVerif.Lemmas.DipoleCalc
 import MagpyVerif.Props.C13
+import MagpyVerif.Lemmas.SegmentDiv
 namespace MagpyVerif.C14
 open MagpyVerif MagpyVerif.Kern
 
@@ -199,5 +204,101 @@ example : (bhjmSphere .B 2 ⟨0, 0, 1⟩ (⟨0, 0, 1 / 2⟩ : V3 ℝ)).z = 2 / 3
   simp only [bhjmSphere, lt_real, abs_real, n, ofNat_real, Nat.cast_ofNat, h, decide_false,
     Bool.false_eq_true, if_false, vs]
   norm_num
+
+/-! ### local form of the flux law: straight current segment (canonical placement) -/
+
+/-- the model's `segmentH` (`current_polyline_Hfield` for one segment, all three branches of its
+foot-point case split) for a segment on the z-axis from `a` to `b ≠ a` and an observer off the axis:
+purely azimuthal, `H = I/(4π) · G(ρ², z) · (−y, x, 0)` with
+`G(u, z) = ((b − z)/√((b − z)² + u) − (a − z)/√((a − z)² + u)) / u`
+(the textbook `I/(4πρ)·(sin θ₂ − sin θ₁)·ê_φ`) -/
+theorem segmentH_canonical_eq (cur a b x y z : ℝ) (hab : a ≠ b) (hρ : 0 < x * x + y * y) :
+    segmentH cur ⟨0, 0, a⟩ ⟨0, 0, b⟩ ⟨x, y, z⟩ =
+      ⟨-y * (cur / (4 * Real.pi) * SegBS.segCanonG a b z (x * x + y * y)),
+        x * (cur / (4 * Real.pi) * SegBS.segCanonG a b z (x * x + y * y)), 0⟩ :=
+  SegBS.segmentH_canonical_eq cur a b x y z hab hρ
+
+/-- C14 (straight segment, local form of the flux law), canonical placement: for the segment on the
+z-axis from `a` to `b ≠ a` and every observer off the axis the three partial derivatives ∂Hx/∂x,
+∂Hy/∂y, ∂Hz/∂z of the model's `segmentH` exist and add up to zero (div H = 0, hence div B = 0).
+The field is azimuthal with a magnitude independent of the azimuth:
+∂Hx/∂x + ∂Hy/∂y = −y·c·G₁·2x + x·c·G₁·2y = 0, Hz ≡ 0.
+Nothing is claimed about curl H: the field of an open finite segment is NOT curl-free (the
+current is not closed); only closed polylines are.
+The same for arbitrary placement: `segment_div_free` below. -/
+theorem segment_div_free_canonical (cur a b : ℝ) (hab : a ≠ b) (x y z : ℝ) (hρ : 0 < x * x + y * y) :
+    ∃ dxx dyy dzz : ℝ,
+      HasDerivAt (fun t => (segmentH cur (⟨0, 0, a⟩ : V3 ℝ) ⟨0, 0, b⟩ ⟨t, y, z⟩).x) dxx x ∧
+      HasDerivAt (fun t => (segmentH cur (⟨0, 0, a⟩ : V3 ℝ) ⟨0, 0, b⟩ ⟨x, t, z⟩).y) dyy y ∧
+      HasDerivAt (fun t => (segmentH cur (⟨0, 0, a⟩ : V3 ℝ) ⟨0, 0, b⟩ ⟨x, y, t⟩).z) dzz z ∧
+      dxx + dyy + dzz = 0 :=
+  SegBS.segment_canonical_divFree cur a b hab ⟨x, y, z⟩ hρ
+
+/-- the same with Mathlib's `deriv` -/
+theorem segment_div_free_canonical_deriv (cur a b : ℝ) (hab : a ≠ b) (x y z : ℝ) (hρ : 0 < x * x + y * y) :
+    deriv (fun t => (segmentH cur (⟨0, 0, a⟩ : V3 ℝ) ⟨0, 0, b⟩ ⟨t, y, z⟩).x) x +
+      deriv (fun t => (segmentH cur (⟨0, 0, a⟩ : V3 ℝ) ⟨0, 0, b⟩ ⟨x, t, z⟩).y) y +
+      deriv (fun t => (segmentH cur (⟨0, 0, a⟩ : V3 ℝ) ⟨0, 0, b⟩ ⟨x, y, t⟩).z) z = 0 := by
+  obtain ⟨d1, d2, d3, h1, h2, h3, h⟩ := segment_div_free_canonical cur a b hab x y z hρ
+  rw [h1.deriv, h2.deriv, h3.deriv]
+  exact h
+
+/-- non-vacuity: unit current on the z-axis from −1 to 1, observer (1, 0, 0): the field there is
+`(0, √2/(4π), 0) ≠ 0`, and the point is covered by the theorem -/
+example : DivFreeAt (segmentH 1 (⟨0, 0, -1⟩ : V3 ℝ) ⟨0, 0, 1⟩) ⟨1, 0, 0⟩ :=
+  segment_div_free_canonical 1 (-1) 1 (by norm_num) 1 0 0 (by norm_num)
+example : (segmentH 1 (⟨0, 0, -1⟩ : V3 ℝ) ⟨0, 0, 1⟩ ⟨1, 0, 0⟩).y = √2 / (4 * Real.pi) := by
+  rw [segmentH_canonical_eq 1 (-1) 1 1 0 0 (by norm_num) (by norm_num)]
+  simp only [SegBS.segCanonG]
+  have h2 : √2 ≠ 0 := (Real.sqrt_pos.mpr (by norm_num)).ne'
+  have e1 : ((1 : ℝ) - 0) ^ 2 + (1 * 1 + 0 * 0) = 2 := by norm_num
+  have e2 : ((-1 : ℝ) - 0) ^ 2 + (1 * 1 + 0 * 0) = 2 := by norm_num
+  rw [e1, e2]
+  have hs : √2 * √2 = 2 := Real.mul_self_sqrt (by norm_num)
+  field_simp
+  nlinarith [hs]
+
+/-- the one-segment kernel depends on segment and observer only through their differences:
+translating both by `d` does not change the field (observer off the carrier line) — with
+`segment_div_free_canonical` this covers every segment parallel to the z-axis -/
+theorem segment_translate (cur : ℝ) (p1 p2 po d : V3 ℝ)
+    (hoff : 0 < SegBS.nsq (V3.cross (p2 - p1) (po - p1))) :
+    segmentH cur (p1 + d) (p2 + d) (po + d) = segmentH cur p1 p2 po :=
+  SegBS.segmentH_translate cur p1 p2 po d hoff
+
+example : segmentH 1 ((⟨0, 0, -1⟩ : V3 ℝ) + ⟨5, 6, 7⟩) (⟨0, 0, 1⟩ + ⟨5, 6, 7⟩) (⟨1, 0, 0⟩ + ⟨5, 6, 7⟩) =
+    segmentH 1 ⟨0, 0, -1⟩ ⟨0, 0, 1⟩ ⟨1, 0, 0⟩ :=
+  segment_translate 1 _ _ _ _ (by simp [SegBS.nsq, V3.cross])
+
+/-- C14 (straight segment, local form of the flux law), **arbitrary placement**: for every segment
+`p1 → p2` and every observer off its carrier line (`|(p2 − p1) × (p − p1)|² > 0`, which also forces
+`p1 ≠ p2`; these are exactly the rows that pass both masks of the Polyline wrapper, Props/C15
+`polyline_masks_cover_singular`) the three partial derivatives ∂Hx/∂x, ∂Hy/∂y, ∂Hz/∂z of the model's
+`segmentH` (`current_polyline_Hfield`, all three branches of its foot-point case split) exist and add up
+to zero.  Proof: `H = I/(4π)·Φ(u, v)·(d × w)` with `d = p2 − p1`, `w = p − p1`, `u = w·d`, `v = |w|²`
+(`SegBS.K_closed`); along each coordinate line the matching component of `d × w` is constant and
+`∂Φ = Φ_u d_i + 2 Φ_v w_i`, hence div H = `I/(4π)·(Φ_u d + 2 Φ_v w)·(d × w) = 0`.
+No statement about curl H: the field of an open finite segment is not curl-free. -/
+theorem segment_div_free (cur : ℝ) (p1 p2 : V3 ℝ) (x y z : ℝ)
+    (hoff : 0 < SegBS.nsq (V3.cross (p2 - p1) (⟨x, y, z⟩ - p1))) :
+    ∃ dxx dyy dzz : ℝ,
+      HasDerivAt (fun t => (segmentH cur p1 p2 ⟨t, y, z⟩).x) dxx x ∧
+      HasDerivAt (fun t => (segmentH cur p1 p2 ⟨x, t, z⟩).y) dyy y ∧
+      HasDerivAt (fun t => (segmentH cur p1 p2 ⟨x, y, t⟩).z) dzz z ∧
+      dxx + dyy + dzz = 0 :=
+  SegBS.segment_divFree cur p1 p2 ⟨x, y, z⟩ hoff
+
+/-- div B = 0 for what `BHJM_current_polyline` returns for `field="B"` on a row that passes its
+masks (`B = μ₀ H`) -/
+theorem segment_B_div_free (cur : ℝ) (p1 p2 p : V3 ℝ)
+    (hoff : 0 < SegBS.nsq (V3.cross (p2 - p1) (p - p1))) :
+    DivFreeAt (fun q => vs mu0R (segmentH cur p1 p2 q)) p := by
+  obtain ⟨a, b, c, ha, hb, hc, h⟩ := SegBS.segment_divFree cur p1 p2 p hoff
+  refine ⟨mu0R * a, mu0R * b, mu0R * c, ha.const_mul mu0R, hb.const_mul mu0R, hc.const_mul mu0R, ?_⟩
+  rw [← mul_add, ← mul_add, h, mul_zero]
+
+-- non-vacuity: a skew segment and an observer off its line
+example : DivFreeAt (segmentH 2 (⟨1, 2, 3⟩ : V3 ℝ) ⟨-1, 0, 5⟩) ⟨4, 4, 4⟩ :=
+  segment_div_free 2 _ _ 4 4 4 (by simp [SegBS.nsq, V3.cross]; norm_num)
 
 end MagpyVerif.C14
